@@ -99,6 +99,52 @@ func Solve(dir, name, query string, timeoutS int) Result {
 		return Result{Status: "error", Output: err.Error()}
 	}
 	bs := backends()
+	// stage 1: the usually fastest back end alone, briefly; most obligations end here
+	if len(bs) > 1 && timeoutS > 5 {
+		start := time.Now()
+		r := runOne(context.Background(), bs[0], file, 5, start)
+		if r.Status == "unsat" || r.Status == "sat" {
+			return r
+		}
+	}
+	return race(bs, file, timeoutS)
+}
+
+func runOne(ctx context.Context, b Backend, file string, timeoutS int, start time.Time) Result {
+	argv := b.Argv(file, timeoutS)
+	cctx, ccancel := context.WithTimeout(ctx, time.Duration(timeoutS+2)*time.Second)
+	defer ccancel()
+	cmd := exec.CommandContext(cctx, argv[0], argv[1:]...)
+	var out bytes.Buffer
+	cmd.Stdout = &out
+	cmd.Stderr = &out
+	_ = cmd.Run() // z3 4.8.12 exits 1 on (get-model) after unsat: parse first line only
+	text := out.String()
+	first := strings.TrimSpace(firstLine(text))
+	r := Result{Solver: b.Name, Seconds: time.Since(start).Seconds(), Output: text}
+	switch first {
+	case "unsat":
+		r.Status = "unsat"
+	case "sat":
+		r.Status = "sat"
+		if i := strings.Index(text, "\n"); i >= 0 {
+			r.Model = text[i+1:]
+		}
+	case "unknown":
+		r.Status = "unknown"
+	case "timeout":
+		r.Status = "timeout"
+	default:
+		if cctx.Err() != nil {
+			r.Status = "timeout"
+		} else {
+			r.Status = "error"
+		}
+	}
+	return r
+}
+
+func race(bs []Backend, file string, timeoutS int) Result {
 	type ans struct {
 		r Result
 	}
@@ -109,36 +155,7 @@ func Solve(dir, name, query string, timeoutS int) Result {
 	for _, b := range bs {
 		b := b
 		go func() {
-			argv := b.Argv(file, timeoutS)
-			cctx, ccancel := context.WithTimeout(ctx, time.Duration(timeoutS+2)*time.Second)
-			defer ccancel()
-			cmd := exec.CommandContext(cctx, argv[0], argv[1:]...)
-			var out bytes.Buffer
-			cmd.Stdout = &out
-			cmd.Stderr = &out
-			_ = cmd.Run() // z3 4.8.12 exits 1 on (get-model) after unsat: parse first line only
-			text := out.String()
-			first := strings.TrimSpace(firstLine(text))
-			r := Result{Solver: b.Name, Seconds: time.Since(start).Seconds(), Output: text}
-			switch first {
-			case "unsat":
-				r.Status = "unsat"
-			case "sat":
-				r.Status = "sat"
-				if i := strings.Index(text, "\n"); i >= 0 {
-					r.Model = text[i+1:]
-				}
-			case "unknown":
-				r.Status = "unknown"
-			case "timeout":
-				r.Status = "timeout"
-			default:
-				if cctx.Err() != nil {
-					r.Status = "timeout"
-				} else {
-					r.Status = "error"
-				}
-			}
+			r := runOne(ctx, b, file, timeoutS, start)
 			ch <- r
 		}()
 	}
